@@ -292,8 +292,10 @@ def run_batch(ctx, binary, scheds, tag, race):
         if stop < 0:
             break
         first = stop + 1
-        if part > 20:
-            raise Machinery("more than 20 stuck schedules in batch %s" % tag)
+        if part >= 6:
+            # every stuck schedule costs a watchdog period; six observations are enough for a verdict
+            ctx.note("batch %s: 6 schedules with stuck calls, remaining %d schedules not run" % (tag, len(scheds) - first))
+            break
     return events, "\n".join(errs), stats
 
 
